@@ -231,7 +231,8 @@ RECURSIVE RouterExec(_, _, _), WasmExec(_, _, _), ProcSubs(_, _, _, _, _), ExecS
 
 (* BankKeeper::execute *)
 BankExec(x0, sender, m, note) ==
-    LET x == [x0 EXCEPT !.rlog = Append(@, [slot |-> "bank", sender |-> sender, payload |-> m.k])] IN
+    (* the bank module is handed the coin list exactly as it was written in the message (zero coins, repetitions, order) *)
+    LET x == [x0 EXCEPT !.rlog = Append(@, [slot |-> "bank", sender |-> sender, payload |-> m.k, coins |-> CoinsStr(m.coins)])] IN
     IF m.k = "bank_send"
     THEN LET r == SendFromTo(x.st.bank, sender, m.to, m.coins) IN
          IF r.ok
